@@ -9,7 +9,7 @@ def items(tier):
     maxL = 3 if tier == "quick" else 4
     for p, strat, tags in corpus.entries(tier):
         alpha = "utf8" if corpus.uses_anychar(p) else ""
-        for L in range(0, maxL + 1):
+        for L in corpus.lengths(tags, tier, maxL):
             out.append({"id": "C02|%s|FindIndex|L%d|%s" % (p, L, alpha or "full"), "Harness": "C02", "Pattern": p, "API": "FindIndex", "L": L, "Alpha": alpha,
                         "strategy": strat, "reach": ["match", "nomatch"] if L == maxL else None})
         for pre, post in corpus.windows(p):
